@@ -31,6 +31,14 @@ def _job(ln):
     return n, out
 
 
+def _pmap(fn, items):
+    # measured on the loaded box: a fork pool is SLOWER than a plain loop for these sub-millisecond replays
+    # until there are some 10^5 of them (14 500 programs: 8 s serial, 17-67 s with 2-8 processes)
+    if len(items) < 60000:
+        return [fn(x) for x in items]
+    return core.parallel_map(fn, items, procs=8, chunk=2000)
+
+
 def run(tier: str) -> int:
     ck = core.Check("C38", tier)
     consts = QUICK if tier == "quick" else THOROUGH
@@ -82,7 +90,7 @@ def run(tier: str) -> int:
         raise RuntimeError(f"vacuous model run: {vac}")
     n_impl = 0
     by_api: dict = {}
-    for n, fails in core.parallel_map(_job, lines, procs=8, chunk=200):
+    for n, fails in _pmap(_job, lines):
         n_impl += n
         for f in fails:
             by_api[f["api"]] = by_api.get(f["api"], 0) + 1
